@@ -367,10 +367,10 @@ def replay_native(fn, kwargs: Dict[str, Any]) -> Tuple[bool, str]:
         WITNESS = saved
 
 
-def _add_pre(fn, extra_pre: List[str]):
+def _add_pre(fn, extra_pre: List[str], binds: Optional[Dict[str, Any]] = None):
     """Returns a wrapper of fn (same name/signature) whose PEP316 docstring has additional `pre:` lines placed
     first.  CrossHair reads contracts from the *source text*, so the wrapper is written to a real file."""
-    if not extra_pre:
+    if not extra_pre and not binds:
         return fn
     import types
     import linecache
@@ -384,6 +384,11 @@ def _add_pre(fn, extra_pre: List[str]):
     if src_lines[q].strip() != '"""':
         raise EngineBug("harness docstring must open with a line holding only three quotes")
     src_lines[q + 1:q + 1] = [f"    pre: {p}" for p in extra_pre]
+    if binds:
+        # case-split arguments are rebound to their literal value at the top of the body, so the code under
+        # test sees a concrete value (the matching `pre: arg == value` keeps the reported model consistent)
+        qe = next(i for i in range(q + 1, len(src_lines)) if src_lines[i].strip().endswith('"""'))
+        src_lines[qe + 1:qe + 1] = [f"    {k} = {v!r}" for k, v in binds.items()]
     src = "\n".join(src_lines) + "\n"
     d = os.environ.get("VERIF_SCRATCH") or os.getcwd()
     _add_pre.n = getattr(_add_pre, "n", 0) + 1
@@ -406,13 +411,13 @@ def pre_lines(fn) -> List[str]:
     return [l.strip() for l in (fn.__doc__ or "").split("\n") if l.strip().startswith("pre:")]
 
 
-def run_symbolic(fn, timeout: float, per_path: Optional[float] = None, extra_pre: Optional[List[str]] = None) -> Dict[str, Any]:
+def run_symbolic(fn, timeout: float, per_path: Optional[float] = None, extra_pre: Optional[List[str]] = None, binds: Optional[Dict[str, Any]] = None) -> Dict[str, Any]:
     """Symbolically executes `fn` (PEP316 contract in its docstring) until the
     path tree is exhausted, a model is found, or the CPU budget is used up."""
     from crosshair.core_and_libs import analyze_function, run_checkables
     from crosshair.options import AnalysisKind, AnalysisOptionSet
 
-    f = _add_pre(fn, list(extra_pre or []))
+    f = _add_pre(fn, list(extra_pre or []), binds)
     stats: collections.Counter = collections.Counter()
     opts = AnalysisOptionSet(
         per_condition_timeout=timeout,
